@@ -554,6 +554,13 @@ def build_cases(ctx):
         while _prod(lv) > cap:
             lv.pop()
         cases.append(("fullfact", {"levels": lv}))
+    # factors with many levels (narrow integer storage, e.g. int8/uint8/int16, wraps at 128 / 256 / 32768)
+    for lv in ([rng.randint(129, 200)], [rng.randint(2, 3), rng.randint(130, 190)], [rng.randint(257, 300), 2], [2, 2, 131]) + \
+            (() if q else ([33000], [2, 40000], [70000])):
+        cases.append(("fullfact", {"levels": list(lv)}))
+    many = [float(i) for i in range(-90, rng.randint(60, 91))]
+    cases.append(("ffl", {"values": [[0.5, 1.5, 2.5][:rng.randint(1, 3)], many]}))
+    cases.append(("ffl", {"values": [many[:rng.randint(130, 150)]]}))
     if not q:   # exhaustive small scope
         for k in (1, 2, 3, 4):
             for lv in itertools.product(range(1, 5), repeat=k):
